@@ -1223,8 +1223,20 @@ func init() {
 			} else {
 				cmp, _ = json.Marshal(map[string]any{"ok": ro.Ok})
 			}
-			if !core.CanonEqual(cmp, drv) {
+			// the driver answers twice: the attribute-level model (twoDocsAt) and, under "whole", the whole-tree model
+			// (loadDocsC: canonical, Merge.merge from the root, canonical) with the attribute extracted
+			var dm map[string]json.RawMessage
+			if json.Unmarshal(drv, &dm) != nil {
+				return core.Disagree("malformed driver answer")
+			}
+			whole := dm["whole"]
+			delete(dm, "whole")
+			attrOnly, _ := json.Marshal(dm)
+			if !core.CanonEqual(cmp, attrOnly) {
 				return core.Disagree("Short.twoDocsAt ≠ Canonical∘Merge∘Canonical")
+			}
+			if whole == nil || !core.CanonEqual(cmp, whole) {
+				return core.Disagree("Short.loadDocsC ≠ Canonical∘Merge∘Canonical")
 			}
 			return nil
 		},
